@@ -5,6 +5,7 @@ package main
 // (the result file lists the ones that were actually called).
 
 import (
+	"go/token"
 	"fmt"
 	"go/types"
 	"strconv"
@@ -480,6 +481,29 @@ func init() {
 				out[i] = p
 			}
 			return out
+		},
+		"strings.Compare": func(r *Run, fr *frame, a []value) value {
+			if x, ok := a[0].(string); ok {
+				if y, ok := a[1].(string); ok {
+					return strings.Compare(x, y)
+				}
+			}
+			test := func(op token.Token) bool {
+				switch c := binop(op, nil, a[0], a[1]).(type) {
+				case bool:
+					return c
+				case symBool:
+					return r.branch(c.t, "strings.Compare")
+				}
+				panic("strings.Compare: bad comparison result")
+			}
+			if test(token.EQL) {
+				return 0
+			}
+			if test(token.LSS) {
+				return -1
+			}
+			return 1
 		},
 		"strings.Count": func(r *Run, fr *frame, a []value) value {
 			return strings.Count(r.textOf(a[0]), r.textOf(a[1]))
